@@ -505,7 +505,7 @@ func writeEvidence(p *PropCheck, tier string, seed int, jobs []*Job, findings []
 	cov["obligation_details"] = obl
 	cov["native_replays_run"] = int(atomic.LoadInt64(&replayCount))
 	cov["solver"] = map[string]interface{}{
-		"queries": gStats.Queries, "sat": gStats.Sat, "unsat": gStats.Unsat, "unknown": gStats.Unknown, "errors": gStats.Errors,
+		"queries": gStats.Queries, "sat": gStats.Sat, "unsat": gStats.Unsat, "unknown": gStats.Unknown, "errors": gStats.Errors, "incremental_gave_up_then_one_shot": gStats.Fallbacks,
 		"primary_seconds": round2(float64(gStats.Nanos) / 1e9),
 		"cross_checked": gStats.CrossChecked, "cross_agree": gStats.CrossAgree, "cross_timeout": gStats.CrossTimeout, "cross_disagree": gStats.CrossDisagree,
 	}
